@@ -136,23 +136,16 @@ impl Prop for Framing {
         let cancel = self.cancel;
         // set when the connection kept failing after the script's transient failures were used up
         let gave_up: Rc<RefCell<bool>> = Rc::new(RefCell::new(false));
-        // Neighbours (seeded runs only): one run in five hundred shares the process with a live
-        // connection whose receive buffer holds tens of MiB; one in eight shares the thread with a
-        // second scripted connection whose traffic is interleaved with this one's.
+        // Neighbours: one seeded run in eight shares the thread with a second scripted connection
+        // whose traffic is interleaved with this one's. (The other kind of neighbour, a live
+        // connection holding tens of MiB, is process-wide and set up by `main` for a whole pass.)
         let seeded = mode_desc.0.starts_with("seeded");
-        let (want_ballast, want_second) = if seeded {
-            let mut w = world.borrow_mut();
-            let b = if w.tape.draw(512) == 511 { Some((64usize << 20) + 1 + w.tape.draw(30 << 20)) } else { None };
-            (b, w.tape.draw(8) == 7)
-        } else {
-            (None, false)
-        };
+        let want_second = seeded && world.borrow_mut().tape.draw(8) == 7;
+        if crate::runner::UNDER_BALLAST.load(std::sync::atomic::Ordering::Relaxed) {
+            world.borrow_mut().stat("runs_next_to_a_connection_holding_tens_of_MiB");
+        }
         let mut second: Option<Rc<RefCell<crate::neighbours::SecondResult>>> = None;
         {
-            let _ballast = want_ballast.map(|n| {
-                world.borrow_mut().stat("runs_next_to_a_connection_holding_tens_of_MiB");
-                crate::neighbours::ballast(n)
-            });
             let mut conn = Connection::new(W::socket(world, rd, wr));
             let mut ex = Exec::new();
             if want_second {
@@ -437,6 +430,13 @@ impl Prop for Framing {
         match tier {
             Tier::Quick => 150_000,
             Tier::Thorough => 3_000_000,
+        }
+    }
+
+    fn pressure_runs(&self, tier: Tier) -> u64 {
+        match tier {
+            Tier::Quick => 40_000,
+            Tier::Thorough => 400_000,
         }
     }
 
